@@ -7,7 +7,7 @@ commands; with and without configuration file; one/two content copies) with an i
 kill points inside save-verify-rename with 1..n content copies -> verdict + evidence."""
 import os, sys, json, glob, shutil, time, struct
 from common import (VERIF, NCPU, snapshot_repo, build_tool, regen, check_obligations, proof_coverage, Check, BuildError,
-                    mkscratch, run)
+                    mkscratch, run, build_model, run_lines)
 import c09_lib as L
 import c09_kill as K
 
@@ -219,7 +219,7 @@ def two_copies(chk, tool, root, spec, base, sw, ms, stats, counter):
     return n
 
 
-def kill_points(chk, tool, shim, work, tier, stats):
+def kill_points(chk, tool, shim, model_exe, work, tier, stats):
     quick = tier == 'quick'
     plan = [(1, False), (2, False), (3, False), (2, True)] if quick else [(n, False) for n in range(1, 8)] + [(2, True), (3, True)]
     total = 0
@@ -239,6 +239,19 @@ def kill_points(chk, tool, shim, work, tier, stats):
             if reported < 8:
                 reported += 1
                 chk.violation('kill_%dcopies' % nc, what, rep)
+        # model <-> C: the extracted SaveModel.save_ops must be the call sequence the binary performed, round by round
+        for rnd in sc.rounds:
+            got, sizes = K.log_calls(sc.twin_ev, sc.contents, rnd)
+            line = 'calls %d %s' % (nc, ' '.join(map(str, sizes)))
+            exp = run_lines(model_exe, [line], shards=1)[0].split()
+            stats['model_vs_log_rounds'] = stats.get('model_vs_log_rounds', 0) + 1
+            stats['model_vs_log_calls'] = stats.get('model_vs_log_calls', 0) + len(got)
+            if got != exp and not probs and reported < 8:
+                reported += 1
+                k = next((i for i in range(min(len(got), len(exp))) if got[i] != exp[i]), min(len(got), len(exp)))
+                chk.violation('model_drift_%dcopies' % nc, 'MODEL-DRIFT: the call sequence of the real save (%d calls) differs from SaveModel.save_ops (%d calls) at '
+                              'position %d: real %r, model %r; the protocol check itself found nothing wrong, so the theorems are about a stale model' % (
+                                  len(got), len(exp), k, got[k:k + 3], exp[k:k + 3]), dict(model_line=line, real=got, model=exp), no_input=True)
         st = dict(sc.stats, copies=nc, big=big)
         allstats.append(st)
         total += st.get('kills', 0) * 4 + 8
@@ -297,6 +310,11 @@ def main(tier, replay=None):
                     'harness/c/c09_shim.c (LD_PRELOAD: open/write/fsync/rename/unlink/remove/close numbering, kill, short write, frozen time() and statfs())',
                     'gcc AddressSanitizer + UndefinedBehaviorSanitizer for the memory-safety part, which is TESTED, not proved',
                     'independent oracles: byte/mtime snapshots of the array, Python CRC-32C (bitwise definition), old/new byte comparison after kills'])
+    try:
+        model_exe = build_model('Extract/Extract_C09.vo', 'ocaml/C09', 'c09_ext', 'driver.ml', 'model')
+    except BuildError as e:
+        chk.violation('model_build', 'extracted model does not build: ' + str(e)[-600:], {'error': str(e)}, no_input=True)
+        return chk.finish()
     stats = {}
     t = time.time()
     n_corpus = corpus_cases(chk, tool, asan, work, stats)
@@ -305,7 +323,7 @@ def main(tier, replay=None):
     n_dmg, distinct = damaged_sweeps(chk, tool, asan, work, tier, stats)
     stats['t_damage'] = round(time.time() - t, 1)
     t = time.time()
-    n_kill, kills = kill_points(chk, tool, shim, work, tier, stats)
+    n_kill, kills = kill_points(chk, tool, shim, model_exe, work, tier, stats)
     stats['t_kill'] = round(time.time() - t, 1)
 
     if ob['failed'] and not chk.violations:
